@@ -250,6 +250,7 @@ func (c *FuncCtx) havoc(st *State, as *assignedSet, tag string) {
 			hs[h] = true
 		}
 		hs["H.uint64"] = true
+		c.havocGhosts(st, nil)
 	}
 	var hn []string
 	for h := range hs {
@@ -622,6 +623,14 @@ func (c *FuncCtx) elemOf(st *State, s SliceV, i *Term) Value {
 	if _, ok := et.Underlying().(*types.Struct); ok {
 		return &StructV{T: et, Prefix: "elem." + types.TypeString(et, func(p *types.Package) string { return p.Name() }), F: map[string]Value{}, Key: []*Term{s.Addr, i}}
 	}
+	if at, ok := et.Underlying().(*types.Array); ok {
+		if _, isInt := intKindOf(at.Elem()); isInt {
+			// a slice of fixed-size integer arrays is laid out flat: element i starts at Addr + N*i
+			// (the slice header still counts arrays, so the extent known to the frame reasoning is an
+			// under-approximation: such slices are only read in the functions under contract)
+			return WinV{Addr: Add(s.Addr, MulC(big.NewInt(at.Len()), i)), N: int(at.Len()), Elem: at.Elem()}
+		}
+	}
 	panic(verr("unsupported slice element type %s", s.Elem))
 }
 
@@ -674,7 +683,11 @@ func (c *FuncCtx) evalCall(st *State, n *ast.CallExpr) []Value {
 							panic(verr("contract for the interface method %s must be marked trusted", ik))
 						}
 						con, ok, key = icon, true, ik
-						fi, ok2 = &FuncInfo{Key: ik, Pkg: c.pkg, Obj: o}, true
+						ipkg := c.pkg
+						if dp, okP := c.prog.Pkgs[named.Obj().Pkg().Path()]; okP {
+							ipkg = dp // the contract's own spec functions are those of the declaring package
+						}
+						fi, ok2 = &FuncInfo{Key: ik, Pkg: ipkg, Obj: o}, true
 					}
 				}
 			}
@@ -1049,6 +1062,21 @@ func (c *FuncCtx) callContract(st *State, con *Contract, fi *FuncInfo, recv Valu
 		}
 		c.heap(st, "H.uint64")
 		st.heaps["H.uint64"] = Var(c.freshName("H.uint64"), SArr)
+	}
+	// ghost variables: changed by the callees that say so (`gassigns`), unknown after a callee
+	// without frame
+	{
+		var ga []string
+		for _, vw := range vws {
+			for _, raw := range vw.con.Raw["gassigns"] {
+				ga = append(ga, strings.Fields(strings.ReplaceAll(raw, ",", " "))...)
+			}
+		}
+		if len(ga) > 0 {
+			c.havocGhosts(st, ga)
+		} else if !hasAssigns && (!con.Trusted || len(con.Raw["pure"]) == 0) {
+			c.havocGhosts(st, nil)
+		}
 	}
 	// results
 	var res []Value
